@@ -372,6 +372,19 @@ def model_check(rep, tier):
     r = run_tlc(wd, "Session", cfg=cfgname, workers=4, timeout=600)
     tlc_require_ok(r, "Session reference model")
     rep.add_tlc("Session (reference, " + cfgname + ")", r)
+    # storing / replaying keyboard macros: in the repaired shape no stored macro calls a macro and a replay is bounded;
+    # the pinned shape (a macro may be run while one is recorded) is kept as a regression model: TLC must find the spin
+    cfg = "MC_MacroReplay.cfg"
+    if tier == "thorough":
+        open(os.path.join(wd, "MC_MacroReplay_t.cfg"), "w").write(open(os.path.join(wd, cfg)).read().replace("MaxTyped = 7", "MaxTyped = 8").replace("Regs = {0, 1}", "Regs = {0, 1, 2}"))
+        cfg = "MC_MacroReplay_t.cfg"
+    r = run_tlc(wd, "MacroReplay", cfg=cfg, workers=8, timeout=1200, xmx="10g")
+    tlc_require_ok(r, "MacroReplay (repaired shape)")
+    rep.add_tlc("MacroReplay (NoStoredCall, ReplayBounded, %s)" % cfg, r)
+    r = run_tlc(wd, "MacroReplay", cfg="MC_MacroReplay_pinned.cfg", workers=4, timeout=600)
+    if r.violation is None or "ReplayBounded" not in r.violation:
+        raise Infra("the pinned shape of MacroReplay should violate ReplayBounded (model self-test): %s" % r.violation)
+    rep.notes.append("MacroReplay pinned shape: TLC finds the self-calling macro (ReplayBounded violated at depth %s), as expected" % r.depth)
 
 
 def run(rep, tier, seed):
